@@ -244,6 +244,17 @@ namespace sqf::runtime
             }
         }
         std::shared_ptr<sqf::runtime::value_scope> default_value_scope() { return get_value_scope(m_default_scope_key); }
+        // The namespace code started from within a running script executes in:
+        // that of the innermost executing scope (as selected by with-do), the default one if nothing executes.
+        std::shared_ptr<sqf::runtime::value_scope> current_value_scope()
+        {
+            if (m_context_active && !m_context_active->empty())
+            {
+                auto scope = m_context_active->current_frame().globals_value_scope();
+                if (scope) { return scope; }
+            }
+            return default_value_scope();
+        }
         void default_value_scope(std::string key) { m_default_scope_key = key; }
 
 #pragma endregion
